@@ -22,7 +22,12 @@ type ByteCoder interface {
 // ByteCode compiles bc and appends the results in cr.
 //
 // The evaluation result is left on the stack.
-func ByteCode(bc ByteCoder, cr compResult) {
+//
+// If the program exceeds what an instruction can address then nothing is
+// appended and bytecode.ErrRange is returned.
+func ByteCode(bc ByteCoder, cr compResult) (err error) {
+	defer rollbackOnRange(cr, len(*cr.CS), len(*cr.DS), &err)
+
 	var fl flags.Data
 
 	instr := bc.byteCode(0, fl.Pass(), cr)
@@ -30,12 +35,30 @@ func ByteCode(bc ByteCoder, cr compResult) {
 		instr |= bytecode.New(bytecode.PUSH)
 		*cr.CS = append(*cr.CS, instr)
 	}
+
+	return nil
+}
+
+func rollbackOnRange(cr compResult, csLen, dsLen int, err *error) {
+	if r := recover(); r != nil {
+		if r != bytecode.ErrRange {
+			panic(r)
+		}
+		*cr.CS = (*cr.CS)[:csLen]
+		*cr.DS = (*cr.DS)[:dsLen]
+		*err = bytecode.ErrRange
+	}
 }
 
 // ByteCodeNoStck compiles bc and appends the results in cr.
 //
 // The evaluation result is lost, code is expected to run for side effects.
-func ByteCodeNoStck(bc ByteCoder, cr compResult) {
+//
+// If the program exceeds what an instruction can address then nothing is
+// appended and bytecode.ErrRange is returned.
+func ByteCodeNoStck(bc ByteCoder, cr compResult) (err error) {
+	defer rollbackOnRange(cr, len(*cr.CS), len(*cr.DS), &err)
+
 	var fl flags.Data
 
 	instr := bc.byteCode(0, fl.Pass(flags.WithDiscard(true)), cr)
@@ -43,6 +66,8 @@ func ByteCodeNoStck(bc ByteCoder, cr compResult) {
 		instr = bytecode.New(bytecode.POP)
 		*cr.CS = append(*cr.CS, instr)
 	}
+
+	return nil
 }
 
 func (i Int) byteCode(srcsel int, _ flags.Pass, cr compResult) bytecode.Type {
@@ -145,6 +170,9 @@ func (f Function) byteCode(srcsel int, fl flags.Pass, cr compResult) bytecode.Ty
 		*cr.CS = append(*cr.CS, instr)
 	}
 
+	if f.LocalCnt >= 1<<bytecode.SrcChanWidth || bodyAddr >= 1<<32 {
+		panic(bytecode.ErrRange)
+	}
 	funVal := value.NewFunction(bodyAddr, nil, len(f.Parameters.Elems), f.LocalCnt)
 	ix := len(*cr.DS)
 	*cr.DS = append(*cr.DS, funVal)
